@@ -117,7 +117,7 @@ func genString(r *hx.Rng, huge bool) []byte {
 }
 
 func runStrings(c *hx.Ctx) {
-	m := c.N(500, 12000)
+	m := c.N(500, 5000)
 	for k := 0; k < m; k++ {
 		s := genString(c.Rng, k%100 == 99)
 		enc := mhpack.VerifAppendHpackString(nil, string(s))
@@ -155,7 +155,7 @@ func runStrings(c *hx.Ctx) {
 		}
 	}
 	// malformed stream for readString
-	m = c.N(500, 15000)
+	m = c.N(500, 8000)
 	for k := 0; k < m; k++ {
 		var p []byte
 		switch c.Rng.Intn(4) {
@@ -248,7 +248,11 @@ func genField(r *hx.Rng, pool *[]hItem) hItem {
 	case 4, 5, 6:
 		f.val = string(genString(r, false))
 	case 7:
-		f.val = string(genTok(r, r.Intn(4000)))
+		if r.Intn(8) == 0 {
+			f.val = string(genTok(r, r.Intn(4000)))
+		} else {
+			f.val = string(genTok(r, r.Intn(300)))
+		}
 	case 8:
 		f.val = string(genTok(r, 100))
 	default:
@@ -371,7 +375,7 @@ func runHeaderList(c *hx.Ctx, dir string, items []hItem) {
 }
 
 func runHeaderLists(c *hx.Ctx) {
-	m := c.N(700, 16000)
+	m := c.N(700, 5000)
 	sizes := []uint32{0, 1, 32, 33, 64, 100, 512, 4095, 4096, 4097, 8192, 65536}
 	for k := 0; k < m; k++ {
 		r := c.Rng
@@ -400,7 +404,7 @@ func runHeaderLists(c *hx.Ctx) {
 				nf = 60 + r.Intn(100) // enough to overflow a 4096-byte table several times
 			}
 			hugeAt := -1
-			if r.Intn(40) == 0 {
+			if r.Intn(80) == 0 {
 				hugeAt = r.Intn(nf) // one huge value (beyond a frame / beyond the table), never repeated
 			}
 			for j := 0; j < nf; j++ {
